@@ -519,6 +519,30 @@ fn state_users(out: &mut Out, n: usize, ts: &str, w: &[(&'static str, Vec<usize>
                 Err(e) => show_err(&e) }
         }));
         out.case(&format!("smeasure {} {}", ts, q), &match r { Ok(a) => a, Err(e) => e });
+        // the register already holds ones everywhere: a measured 0 has to clear the target bit
+        let b = (q * 7 + seed as usize) % 64;
+        for two in [false, true].iter()
+        {
+            let wv: Vec<(&'static str, Vec<usize>)> = w.to_vec();
+            let two = *two;
+            let r = guarded(std::panic::AssertUnwindSafe(|| {
+                let mut rng = rand::rngs::StdRng::seed_from_u64(seed.wrapping_add(100 + q as u64 + two as u64));
+                let mut s = state_from_word(n, 1, &wv);
+                let mut res = ndarray::Array1::<u64>::from_elem(1, u64::MAX);
+                let mut r = s.measure_into(q, b, &mut res, &mut rng);
+                if two && r.is_ok()
+                {
+                    r = s.apply_gate(&X::new(), &[q]);
+                    if r.is_ok() { r = s.measure_into(q, b, &mut res, &mut rng); }
+                }
+                let snap = snapshot_texts(&s);
+                match r {
+                    Ok(()) if snap.len() == 1 => format!("{} {}", res[0], snap[0]),
+                    Ok(()) => "not-one-range".to_string(),
+                    Err(e) => show_err(&e) }
+            }));
+            out.case(&format!("{} {} {} {}", if two { "minto2" } else { "minto" }, ts, q, b), &match r { Ok(a) => a, Err(e) => e });
+        }
     }
 }
 
@@ -704,6 +728,59 @@ fn main()
     op_tgate(&mut out, "+ZI,+IZ", &[0, 1], "Comp x 2 1 T 1 0", None);
     op_tgate(&mut out, "+ZI,+IZ", &[0, 1], "Loop l 0 b 2 1 T 1 0", None);
     op_tgate(&mut out, "+ZI,+IZ", &[1, 0], "C X", None);
+
+    // 7. registers at and around the u64 word boundaries of the packing: sign-carrying row swaps
+    for &n in [31usize, 32, 33, 63, 64, 65, 66, 95, 96, 97, 128, 129].iter()
+    {
+        if !deep && n > 97 && n != 128 { continue; }
+        let marks: Vec<usize> = [0usize, 15, 31, 32, 33, 63, 64, 65, 95, 96, n - 2, n - 1].iter().cloned().filter(|&q| q < n).collect();
+        let mut t = StabilizerTableau::new(n);
+        // signs: X / Y / Z on a third of the marked qubits and a few random ones
+        for (k, &q) in marks.iter().enumerate()
+        {
+            let name = ["X", "Y", "Z", "I"][k % 4];
+            t.apply_gate(&*gate(name), &[q]).unwrap();
+        }
+        for _ in 0..(n / 6) { let q = rng.below(n as u64) as usize; t.apply_gate(&X::new(), &[q]).unwrap(); }
+        // every row operation through the hooks on the diagonal tableau with mixed signs
+        let ts0 = text(&t);
+        let mut pairs: Vec<(usize, usize)> = vec![(0, n - 1), (n - 1, 0), (15, n - 1)];
+        for w in [31usize, 63, 95, 127].iter() { if w + 1 < n { pairs.push((*w, w + 1)); pairs.push((0, w + 1)); pairs.push((w + 1, 15)); } }
+        for &(a, b) in pairs.iter() { if a < n && b < n { op_swap(&mut out, &ts0, a, b); op_mul(&mut out, &ts0, a, b); } }
+        op_words(&mut out, &ts0);
+        // H / S / CX on marked qubits: normalize has to move rows (and their signs) across the word boundaries
+        let mut steps: Vec<(&str, Vec<usize>)> = vec![];
+        for &q in marks.iter().rev().take(6) { steps.push(("H", vec![q])); }
+        steps.push(("S", vec![n - 1]));
+        if n > 40 { steps.push(("CX", vec![n - 1, 3])); steps.push(("CX", vec![16, n - 2])); steps.push(("H", vec![16])); }
+        steps.push(("H", vec![1]));
+        steps.push(("CZ", vec![0, n - 1]));
+        steps.push(("Y", vec![n / 2]));
+        steps.push(("H", vec![n / 2]));
+        for (name, bits) in steps.iter()
+        {
+            let ts = text(&t);
+            op_gate(&mut out, &ts, name, bits);
+            t.apply_gate(&*gate(name), bits).unwrap();
+            if bits.len() == 1
+            {
+                if let Some(i) = op_measure(&mut out, &text(&t), bits[0]) { let _ = i; }
+            }
+        }
+        let ts = text(&t);
+        op_norm(&mut out, &ts);
+        op_words(&mut out, &ts);
+        for &(a, b) in pairs.iter().take(6) { if a < n && b < n { op_swap(&mut out, &ts, a, b); if a != b { op_mul(&mut out, &ts, a, b); } } }
+        // scrambled with the private row operations, then normalised by the code
+        let mut t2 = build(&ts);
+        for _ in 0..n
+        {
+            let a = rng.below(n as u64) as usize;
+            let b = rng.below(n as u64) as usize;
+            if a != b { if rng.coin() { t2.verif_multiply_row(a, b); } else { t2.verif_swap_rows(a, b); } }
+        }
+        op_norm(&mut out, &text(&t2));
+    }
 
     let n = out.finish();
     eprintln!("c03: {} cases", n);
